@@ -22,6 +22,10 @@ class UserAbort(Exception):
     """the exception a user raises inside a squash_changes block"""
 
 
+class UserBaseAbort(BaseException):
+    """a block may also be left by something that is not an Exception (KeyboardInterrupt, CancelledError)"""
+
+
 class FaultyDict(dict):
     """dict whose n-th __setitem__ after arm(n) raises; counts reads"""
 
@@ -146,10 +150,10 @@ def step(w, ev):
                 w.db.arm(0)
         elif a == "abort":
             cm, w.cm, w.batch = w.cm, None, None
-            e = UserAbort()
+            e = UserAbort() if w.n % 2 else UserBaseAbort()
             try:
-                swallowed = cm.__exit__(UserAbort, e, None)
-            except UserAbort:
+                swallowed = cm.__exit__(type(e), e, None)
+            except (UserAbort, UserBaseAbort):
                 swallowed = False
             if swallowed:
                 return {"kind": "exc", "type": "swallowed", "msg": "squash_changes swallowed the exception"}
@@ -701,12 +705,36 @@ def classify_nodes(w, st, out):
             t = nd.get_node_type(node)
             if t != kinds[j[0]]:
                 out.append(("C16", "hexary-node-misclassified", {"node": j[0], "got": t}))
+            preds = (nd.is_blank_node(node), nd.is_leaf_node(node), nd.is_extension_node(node), nd.is_branch_node(node))
+            if preds != (False, j[0] == "L", j[0] == "E", j[0] == "B"):
+                out.append(("C16", "hexary-node-predicates-disagree-with-its-kind", {"node": j[0], "predicates": preds}))
             if j[0] in "LE" and tuple(nd.extract_key(node)) != tuple(j[1]):
                 out.append(("C16", "hexary-node-key-path-wrong", {"want": j[1], "got": list(nd.extract_key(node))}))
         except Exception as exc:  # noqa
             out.append(("C16", "hexary-node-classification-raised", {"exc": type(exc).__name__}))
-    if nd.get_node_type(b"") != 0:
+    if nd.get_node_type(b"") != 0 or (nd.is_blank_node(b""), nd.is_leaf_node(b""), nd.is_extension_node(b""),
+                                        nd.is_branch_node(b"")) != (True, False, False, False):
         out.append(("C16", "blank-node-misclassified", {}))
+
+
+def touch(w, st):
+    """read-only calls made between the steps of a behaviour and never judged: they exist to fill
+    whatever caches / scratch state the implementation keeps, so that state left over from an earlier
+    call is present when the final state is examined (the intermediate states themselves are the
+    final states of shorter emitted behaviours)"""
+    import importlib
+
+    tries = [w.t] + ([w.batch] if w.batch is not None else [])
+    look = st.get("look") or []
+    key = key_of(look[w.n % len(look)][0]) if look else b""
+    for t in tries:
+        for fn in (lambda: t.root_node, lambda: t.get_proof(key), lambda: t.exists(key),
+                   lambda: importlib.import_module("trie.iter").NodeIterator(t).next(key),
+                   lambda: t.traverse(())):
+            try:
+                fn()
+            except Exception:  # noqa
+                pass
 
 
 def pre_info(w):
@@ -749,6 +777,8 @@ def replay(obj, mod, rz, opts=frozenset()):
             compare_outcome(w, ev, real, pre_r, snapshot(w), out)
             continue
         real = step(w, ev)
+        if not is_last and "notouch" not in opts:
+            touch(w, st)
         if track_past and st.get("nlost", 0) == 0 and ev["a"] not in ("lose", "supply"):
             for tr in (w.t, w.t2):
                 if tr is not None and tr.root_hash not in pasts:
